@@ -24,7 +24,8 @@ from . import vtkenc as V
 from .clicommon import run_cli
 
 OPS = ["compare", "compare_again", "field_comparator", "sort", "sort_points", "sort_cells", "strip", "merge", "extend",
-       "diff", "write", "to_meshio", "to_meshio", "from_meshio_roundtrip", "equals", "predicate_reuse", "structured_access"]
+       "diff", "write", "to_meshio", "to_meshio", "from_meshio_roundtrip", "equals", "predicate_reuse", "structured_access",
+       "dynamic_tolerance_reuse"]
 
 
 def snapshot(arrays):
@@ -155,6 +156,29 @@ def run_history(ctx, rng, idx):
                             pred(f.values, f.values)
                         for fa, fb in zip(a, a):
                             pred(fa.values, fb.values)
+                    elif op == "dynamic_tolerance_reuse":
+                        # one predicate with data-dependent tolerances applied to fields of different dtypes / magnitudes, in a
+                        # random order, must give the verdicts of fresh predicates
+                        from fieldcompare.predicates import FuzzyEquality, ScaledTolerance
+                        pairs = []
+                        for dt in ("float32", "float64", "float64", "int32"):
+                            scale = 10.0 ** rng.choice([-3, 0, 4])
+                            x = (np.arange(1, 5) * scale).astype(dt)
+                            y = x.copy()
+                            if dt != "int32":
+                                y[rng.randrange(4)] *= (1 + rng.choice([1e-9, 3e-8, 1e-5, 0.0]))
+                            pairs.append((x, y))
+                        rng.shuffle(pairs)
+                        for mk in (lambda: FuzzyEquality(rel_tol=0.0, abs_tol=ScaledTolerance()),
+                                   lambda: FuzzyEquality(),
+                                   lambda: FuzzyEquality(rel_tol=0.0, abs_tol=ScaledTolerance(1e-7))):
+                            shared = mk()
+                            for x, y in pairs:
+                                v_shared, v_fresh = bool(shared(x, y)), bool(mk()(x, y))
+                                if v_shared != v_fresh:
+                                    ctx.violation("E4", "a re-used predicate with a data-dependent tolerance gives a different verdict "
+                                                  f"than a fresh one (dtype {x.dtype}: reused {v_shared}, fresh {v_fresh})", canon,
+                                                  executed=executed + [op])
                     elif op == "structured_access":
                         im = ImageMesh((2, 1, 0), (0.0, 0.0, 0.0), (1.0, 1.0, 1.0))
                         p1 = im.points
